@@ -1,6 +1,6 @@
 // Counting / failing allocator driver (C09, C10).
 //  mem <scenario> <failk> <memlimit> <arg> <hex>
-//  -> "<init_ret> <final_ret> <n_allocs> <peak> <live_after_end> <bad_free> <memusage_seen> <memlimit_errors> <total_out> <out_crc> <est> <reinit_ret> <reinit_crc>"
+//  -> "<init_ret> <final_ret> <n_allocs> <peak> <live_after_end> <bad_free> <memusage_seen> <memlimit_errors> <total_out> <out_crc> <est> <reinit_ret> <reinit_crc> <max over calls of live bytes - lzma_memusage()>"
 #include "lzma.h"
 #include <stdio.h>
 #include <stdlib.h>
@@ -36,6 +36,8 @@ static void my_free(void *opaque, void *ptr)
 	free(ptr);
 }
 static lzma_allocator al = { my_alloc, my_free, NULL };
+static size_t in_chunk;     // 0: offer all input at once; else at most this many new bytes per call
+static size_t max_excess;   // max over all calls of (bytes live in the allocator - lzma_memusage())
 
 static lzma_options_lzma ol; static lzma_filter f2[2];
 static lzma_mt mtd, mte;
@@ -66,12 +68,15 @@ static lzma_ret run_code(lzma_stream *s, unsigned sc, const uint8_t *in, size_t 
 {
 	static uint8_t ob[1 << 16];
 	size_t pos = 0; lzma_ret r = LZMA_OK; unsigned guard = 0;
-	s->next_in = in; s->avail_in = n;
+	s->next_in = in; s->avail_in = in_chunk && in_chunk < n ? in_chunk : n; size_t offered = s->avail_in;
 	while (1) {
+		if (in_chunk && s->avail_in == 0 && offered < n && sc != 6) { size_t k = n - offered < in_chunk ? n - offered : in_chunk; s->next_in = in + offered; s->avail_in = k; offered += k; }
 		if (sc == 6 && r == LZMA_SEEK_NEEDED) { if (s->seek_pos > n) return (lzma_ret)97; s->next_in = in + s->seek_pos; s->avail_in = n - (size_t)s->seek_pos; }
 		s->next_out = ob; s->avail_out = sizeof ob;
-		r = lzma_code(s, LZMA_FINISH);
+		r = lzma_code(s, (in_chunk && offered < n && sc != 6) ? LZMA_RUN : LZMA_FINISH);
 		size_t dd = sizeof ob - s->avail_out; *crc = lzma_crc32(ob, dd, *crc); *tout += dd;
+		if (sc < 10 && (r == LZMA_OK || r == LZMA_SEEK_NEEDED)) { uint64_t muse = lzma_memusage(s); pthread_mutex_lock(&mu); size_t lb = live_bytes; pthread_mutex_unlock(&mu);
+			if (muse && lb > muse && lb - muse > max_excess) max_excess = lb - muse; }
 		if (r == LZMA_MEMLIMIT_ERROR) {
 			(*mlerr)++; *memusage_seen = lzma_memusage(s);
 			if (*mlerr > 8) return r;
@@ -111,10 +116,33 @@ int main(void)
 			printf("%d %d %d %zu %zu %zu %08x %08x %08x\n", (int)r1, (int)r2, (int)r3, nB_allocs, live_bytes, bad_free, c1, c2, c3); fflush(stdout);
 			continue;
 		}
+		if (!strncmp(line, "reuse ", 6)) {
+			// reuse <scenario> <arg> <memlimit> <hexA> <hexB>: decode A without a limit, re-initialise the same handle
+			// with the limit, decode B; report what was live while B was decoded
+			unsigned long long ml; char *hA, *hB; int o2 = 0;
+			if (sscanf(line, "reuse %u %u %llu %n", &sc, &arg, &ml, &o2) < 3) { printf("ERR\n"); fflush(stdout); continue; }
+			hA = line + o2; hB = strchr(hA, ' '); if (!hB) { printf("ERR\n"); fflush(stdout); continue; } *hB++ = 0;
+			size_t nA = 0, nB = 0; uint8_t *A = in, *B = in + (1 << 22);
+			for (char *h = hA; h[0] && h[1]; h += 2) A[nA++] = (uint8_t)(hexv(h[0]) << 4 | hexv(h[1]));
+			for (char *h = hB; h[0] && h[1] && h[0] != '\n'; h += 2) B[nB++] = (uint8_t)(hexv(h[0]) << 4 | hexv(h[1]));
+			nlive = 0; live_bytes = peak_bytes = n_allocs = bad_free = 0; fail_k = 0; max_excess = 0; alarm(60);
+			lzma_stream s = LZMA_STREAM_INIT; s.allocator = &al;
+			uint64_t m = 0, t1 = 0, t2 = 0; unsigned e = 0, e2 = 0; uint32_t c1 = 0, c2 = 0;
+			lzma_ret r1 = do_init(&s, sc, UINT64_MAX, arg, nA); if (r1 == LZMA_OK) r1 = run_code(&s, sc, A, nA, &m, &e, &c1, &t1);
+			lzma_ret r2 = do_init(&s, sc, ml ? ml : UINT64_MAX, arg, nB);
+			pthread_mutex_lock(&mu); peak_bytes = live_bytes; pthread_mutex_unlock(&mu); max_excess = 0; m = 0; in_chunk = 7;
+			if (r2 == LZMA_OK) r2 = run_code(&s, sc, B, nB, &m, &e2, &c2, &t2);
+			size_t peakB = peak_bytes; uint64_t muB = lzma_memusage(&s); in_chunk = 0;
+			lzma_end(&s); alarm(0);
+			printf("%d %d %zu %llu %zu %u %08x %zu\n", (int)r1, (int)r2, peakB, (unsigned long long)muB, max_excess, e2, c2, live_bytes); fflush(stdout);
+			continue;
+		}
+		// memc = mem with the input offered 7 bytes at a time (lzma_memusage() is sampled after every call that returns LZMA_OK)
+		in_chunk = 0; if (!strncmp(line, "memc ", 5)) { in_chunk = (line[5] == '6') ? 0 : 7; memmove(line + 3, line + 4, strlen(line + 4) + 1); }
 		if (sscanf(line, "mem %u %llu %llu %u %n", &sc, &failk, &memlimit, &arg, &off) < 4) { printf("ERR\n"); fflush(stdout); continue; }
 		char *h = line + off; size_t n = 0;
 		if (*h != '-') while (h[0] && h[1] && h[0] != '\n') { in[n++] = (uint8_t)(hexv(h[0]) << 4 | hexv(h[1])); h += 2; }
-		nlive = 0; live_bytes = peak_bytes = n_allocs = bad_free = 0; fail_k = (size_t)failk; alarm(60);
+		nlive = 0; live_bytes = peak_bytes = n_allocs = bad_free = 0; fail_k = (size_t)failk; max_excess = 0; alarm(60);
 		if (!memlimit) memlimit = UINT64_MAX;
 		uint64_t est = 0;
 		if (sc == 10) est = lzma_easy_encoder_memusage(arg);
@@ -138,8 +166,8 @@ int main(void)
 		lzma_end(&s);
 		if ((sc == 5 || sc == 6) && gidx) { lzma_index_end(gidx, &al); gidx = NULL; }
 		alarm(0);
-		printf("%d %d %zu %zu %zu %zu %llu %u %llu %08x %llu %d %08x\n", (int)ir, (int)fr, allocs_first, peak_first, live_bytes, bad_free,
-			(unsigned long long)mu_seen, mlerr, (unsigned long long)tout, crc, (unsigned long long)est, (int)rr, crc2);
+		printf("%d %d %zu %zu %zu %zu %llu %u %llu %08x %llu %d %08x %zu\n", (int)ir, (int)fr, allocs_first, peak_first, live_bytes, bad_free,
+			(unsigned long long)mu_seen, mlerr, (unsigned long long)tout, crc, (unsigned long long)est, (int)rr, crc2, max_excess);
 		fflush(stdout);
 	}
 	free(in); return 0;
